@@ -7,6 +7,7 @@ import z3
 
 from .engine import Raised, is_raised, mkbool, mkint, mkstr
 from .values import (
+    STR,
     NONE,
     NORMAL,
     Cls,
@@ -138,6 +139,8 @@ def store_subscript(eng, st, cont, key, v, node):
     if isinstance(cont, Ref):
         o = st.get(cont)
         if isinstance(o, DictObj):
+            if not isinstance(key, Z) and isinstance(key, Opaque) and o.ksort == STR:
+                key = Z("str", z3.FreshConst(STR, "some_key"))  # a key the engine cannot compute (e.g. a computed substring): SOME string
             if not isinstance(key, Z):
                 raise Unsupported(f"dict store key {key}")
             s1 = st.clone()
@@ -591,7 +594,16 @@ def st_For(eng, s, st):
             outs.append((skip, NORMAL))
             one = s1.clone()
             one.path.append("loop:some")
-            for s3, o in unpack(eng, one, s.target.elts, Opaque("item")) if isinstance(s.target, (ast.Tuple, ast.List)) else assign_target(eng, one, s.target, Opaque("item")):
+            item = Opaque("item")
+            if it.attrs and isinstance(it.attrs.get("__dict__"), Ref) and isinstance(one.get(it.attrs["__dict__"]), DictObj):
+                # an arbitrary entry of a modelled dict: a key of its domain with the value stored there (properly typed)
+                dd = one.get(it.attrs["__dict__"])
+                kf = z3.FreshConst(dd.ksort, "some_key")
+                one.pc.append(dd.d[kf])
+                kv = eng.unpack_val(dd.ksort, kf)
+                vv = eng.unpack_val(dd.vsort, dd.m[kf])
+                item = {"dict.items": Tup([kv, vv]), "dict.keys": kv, "dict.values": vv}.get(it.tag, item)
+            for s3, o in unpack(eng, one, s.target.elts, item) if isinstance(s.target, (ast.Tuple, ast.List)) else assign_target(eng, one, s.target, item):
                 for s4, o4 in run(eng, s.body, s3):
                     if o4.kind in ("normal", "continue", "break"):
                         s5 = s4.clone()
